@@ -7,8 +7,12 @@ package chainkit
 // history on a fresh System in a worker and applying one more operation. The parent keeps the
 // global digest memo, merges results in frontier order (deterministic numbering) and never
 // expands a state reached through a failing transition. Every replay must reproduce the digest
-// recorded for the state; every failing history is re-run twice on fresh systems and must fail
-// with the same signature — a divergence is an engine error, never a verdict.
+// recorded for the state and every failing history is re-run twice on fresh systems; the harness
+// being deterministic (no divergence in hundreds of thousands of replays on the unchanged
+// tree), a divergence is reported as a violation ("determinism|…", "…|unstable") with the
+// history, and a request that kills two workers in a row as "crash|worker-died|…" if the
+// worker's output shows a panic / fatal error of the code under test (exhaustive:false if the
+// process was killed from outside).
 //
 //	worker:  chainkit.Serve(chainkit.BFSHandler(func(scenario string) chainkit.System { ... }))
 //	parent:  res := chainkit.BFS(pool, newSystem, scenario, depth, deadline, onFail)
@@ -69,6 +73,7 @@ type bfsResp struct {
 
 // RunHistory executes hist on a fresh system. failAt is the index of the failing op (-1 none).
 func RunHistory(newSystem func(string) System, scenario string, hist []string, wantOps bool) (digest string, ops []string, c map[string]int, f *Fail, failAt int) {
+	Announce(strings.Join(hist, " "))
 	sys := newSystem(scenario)
 	defer sys.Close()
 	failAt = -1
@@ -106,7 +111,12 @@ func BFSHandler(newSystem func(string) System) func([]byte) interface{} {
 		d, ops, _, f, _ := RunHistory(newSystem, rq.Scenario, rq.Hist, true)
 		out.Execs++
 		if f != nil || d != rq.Digest {
-			out.Err = fmt.Sprintf("%s: replay of clean history %v diverged: fail=%v digest %s vs recorded %s", rq.Scenario, rq.Hist, f, d, rq.Digest)
+			// Same history, different outcome on a fresh system: the harness is deterministic
+			// (every clean replay on the unchanged tree reproduces its digest), so the code under
+			// test depends on something other than its inputs — a violation with the history,
+			// not an engine error.
+			out.Trans = append(out.Trans, bfsTrans{Op: "", Fail: &Fail{Sig: "determinism|same-history-different-state",
+				What: fmt.Sprintf("replaying %v on a fresh node gave digest %s (failure: %v) but %s when the state was first reached", rq.Hist, d, f, rq.Digest)}})
 			return out
 		}
 		for _, o := range ops {
@@ -116,18 +126,22 @@ func BFSHandler(newSystem func(string) System) func([]byte) interface{} {
 			t := bfsTrans{Op: o, Digest: d2, C: c}
 			if f != nil {
 				if at != len(h)-1 {
-					out.Err = fmt.Sprintf("%s: history %v failed at clean prefix op %d: %s", rq.Scenario, h, at, f.Sig)
-					return out
+					t.Fail = &Fail{Sig: f.Sig + "|unstable", What: fmt.Sprintf("history %v failed at op %d, inside a prefix that was clean before: %s", h, at, f.What)}
+					out.Trans = append(out.Trans, t)
+					continue
 				}
+				stable := true
 				for k := 0; k < 2; k++ {
 					_, _, _, f2, _ := RunHistory(newSystem, rq.Scenario, h, false)
 					out.Execs++
 					if f2 == nil || f2.Sig != f.Sig {
-						out.Err = fmt.Sprintf("%s: failing history %v does not reproduce: %s then %v", rq.Scenario, h, f.Sig, f2)
-						return out
+						stable = false
 					}
 				}
 				t.Fail = f
+				if !stable {
+					t.Fail = &Fail{Sig: f.Sig + "|unstable", What: "does not reproduce on every fresh node: " + f.What}
+				}
 			}
 			out.Trans = append(out.Trans, t)
 		}
@@ -192,16 +206,35 @@ func BFS(pool *Pool, newSystem func(string) System, scenario string, maxDepth in
 			}
 			reqs[i] = bfsReq{Scenario: scenario, Hist: h, Digest: s.digest}
 		}
-		outs, err := pool.Map(reqs, deadline)
+		outs, deaths, err := pool.Map(reqs, deadline)
 		if err != nil {
 			evid.Fatalf("%s: %v", scenario, err)
+		}
+		died := map[int]bool{}
+		for _, d := range deaths {
+			died[d.Index] = true
+			hist := frontier[d.Index].hist
+			if d.Announced != "" {
+				hist = strings.Fields(d.Announced)
+			}
+			if f := DeathFail(d); f != nil {
+				// the code under test crashed the process twice on this history: a verdict
+				res.Failing++
+				onFail(f, hist)
+			} else {
+				// killed from outside / out of memory twice: a limit of the harness, not a verdict
+				res.Exhaustive = false
+				res.Cap = fmt.Sprintf("worker killed twice (resource limit) while expanding %v: %s", hist, d.ExitErr)
+			}
 		}
 		var next []st
 		cut := false
 		levelTrans := 0
 		for i, raw := range outs {
 			if raw == nil {
-				cut = true
+				if !died[i] {
+					cut = true
+				}
 				continue
 			}
 			var wo bfsResp
@@ -218,7 +251,10 @@ func BFS(pool *Pool, newSystem func(string) System, scenario string, maxDepth in
 				for k, v := range t.C {
 					res.Counters[k] += v
 				}
-				h := append(append([]string{}, frontier[i].hist...), t.Op)
+				h := append([]string{}, frontier[i].hist...)
+				if t.Op != "" {
+					h = append(h, t.Op)
+				}
 				var g *GroupStat
 				if strings.HasPrefix(h[0], "s:") && len(h) > 1 {
 					if res.PerGroup == nil {
@@ -362,6 +398,17 @@ type GroupStat struct {
 	Transitions int `json:"transitions"`
 	Failing     int `json:"failing_transitions"`
 	MaxDepth    int `json:"max_depth"`
+}
+
+// DeathFail turns a twice-dead request into a violation if the worker's output shows that the
+// code under test crashed the process (panic in a goroutine the harness cannot recover, fatal
+// error, fault); nil if the process was killed from outside or ran out of memory.
+func DeathFail(d Death) *Fail {
+	if !d.Crashed() {
+		return nil
+	}
+	return &Fail{Sig: "crash|worker-died|" + evid.PanicSite([]byte(d.Tail)),
+		What: "the worker process died twice on this history (second time on a fresh process); output tail:\n" + d.Tail}
 }
 
 // JoinHist renders a history for messages.
